@@ -141,6 +141,11 @@ fn plant(path: &Path, pre: &str, longer_than: usize) {
     }
 }
 
+/// lower-cased characters of a string as one-character strings (the spec's GlobMatch works on these)
+fn chars(x: &str) -> Vec<String> {
+    x.to_lowercase().chars().map(|c| c.to_string()).collect()
+}
+
 fn lib3(s: &str) -> &'static str {
     if s == "ok" {
         "ok"
@@ -162,6 +167,29 @@ fn source_version(kind: &str, variant: u32) -> &'static str {
         "wdt" => "WotLK",
         "wdl" => ["wotlk", "vanilla", "wotlk", "legion"][variant as usize % 4],
         _ => "",
+    }
+}
+
+/// another accepted spelling of the same version (identity conversion through an alias)
+fn alias_of(v: &str) -> &'static str {
+    match v.to_lowercase().as_str() {
+        "vanilla" => "classic",
+        "classic" => "vanilla",
+        "tbc" => "bc",
+        "wotlk" => "wrath",
+        "cataclysm" => "cata",
+        "mop" => "pandaria",
+        "legion" => "Legion",
+        _ => "wotlk",
+    }
+}
+/// conversion target by option flag: 0 / 1 = two other versions, 2 = the source version itself, 3 = an alias of it
+fn target_for(kind: &str, variant: u32, opt: i64, t0: &str, t1: &str) -> String {
+    match opt {
+        0 => s(t0),
+        1 => s(t1),
+        2 => s(source_version(kind, variant)),
+        _ => s(if kind == "adt" { source_version(kind, variant) } else { alias_of(source_version(kind, variant)) }),
     }
 }
 
@@ -193,6 +221,10 @@ struct Rt {
     fresh_tok: String,
     out_len: u64,
     fresh_len: u64,
+    // numeric selector option: "in" / "out" of range ("" = n/a); --filter pattern and the lower-cased characters of the library's names
+    sel: String,
+    filt: String,
+    libnames: Vec<String>,
 }
 
 #[allow(clippy::too_many_arguments)]
@@ -207,7 +239,9 @@ fn run_event_rt(
         "opt":opt,"exit":r.exit,"says_fail":says_fail(cmd, r),"want":pair(want),"got":pair(got),"outs":outs,"need_outs":need_outs,
         "view":view,"libview":libview,"err":tail,"stdout_tok":tok(r.stdout.as_bytes()),
         "pre":if rt.pre.is_empty() { "empty" } else { rt.pre.as_str() },"out_tok":rt.out_tok,"fresh_tok":rt.fresh_tok,"out_len":rt.out_len,"fresh_len":rt.fresh_len,
-        "glob":GLOB.with(|g| g.borrow().clone()),"rt_dir":rt.dir,"rt_back_exit":if rt.dir.is_empty() { -9 } else { rt.back_exit },"rt_in":rt.tok_in,"rt_back":rt.tok_back})
+        "glob":GLOB.with(|g| g.borrow().clone()),"sel":if rt.sel.is_empty() { "n/a" } else { rt.sel.as_str() },
+        "filt":chars(&rt.filt),"libchars":if rt.filt.is_empty() { Vec::new() } else { rt.libnames.iter().map(|n| chars(n)).collect::<Vec<_>>() },
+        "rt_dir":rt.dir,"rt_back_exit":if rt.dir.is_empty() { -9 } else { rt.back_exit },"rt_in":rt.tok_in,"rt_back":rt.tok_back})
 }
 
 // --------------------------------------------------------------------------------------------------
@@ -277,6 +311,7 @@ fn fmt_case(cli: &Path, dir: &Path, c: &Value, seed: u64) -> Vec<Value> {
     }
     let sc = p(&schema);
     let mut outs_paths: Vec<(PathBuf, String)> = Vec::new(); // (path, kind of the produced file)
+    let (mut sel_class, mut sel_level) = (String::new(), -1i64);
     let mut a: Vec<String> = vec![s(fam), s(cmd)];
     match (fam, cmd) {
         ("dbc", "info") => a.push(f),
@@ -316,6 +351,18 @@ fn fmt_case(cli: &Path, dir: &Path, c: &Value, seed: u64) -> Vec<Value> {
                 a.push(s("--strict"));
             }
         }
+        ("blp", "convert") if opt >= 2 => {
+            // numeric selector --mipmap-level at 0, the last stored level, one past it, huge
+            let levels = libview.iter().find_map(|l| l.strip_prefix("levels:").and_then(|x| x.parse::<i64>().ok())).unwrap_or(0);
+            let level = match opt { 2 => 0, 3 => (levels - 1).max(0), 4 => levels, _ => 1_000_000 };
+            let png = dir.join("out.png");
+            a.extend([f, p(&png), s("--mipmap-level"), level.to_string()]);
+            outs_paths.push((png, s("png")));
+            if lib == "ok" {
+                sel_class = s(if level < levels { "in" } else { "out" });
+                sel_level = level;
+            }
+        }
         ("blp", "convert") => {
             if opt == 1 {
                 a.extend([f, o.clone(), s("--blp-version"), s("blp2"), s("--blp-format"), s("dxt5")]);
@@ -340,19 +387,19 @@ fn fmt_case(cli: &Path, dir: &Path, c: &Value, seed: u64) -> Vec<Value> {
         }
         ("m2", "tree") | ("wmo", "tree") | ("adt", "tree") | ("wdt", "tree") | ("wdl", "tree") | ("m2", "blp-info") | ("wdl", "info") => a.push(f),
         ("m2", "convert") => {
-            a.extend([f, o.clone(), s("--version"), s(if opt == 1 { "1.12.1" } else { "Cataclysm" })]);
+            a.extend([f, o.clone(), s("--version"), target_for(kind, variant, opt, "Cataclysm", "1.12.1")]);
             outs_paths.push((out.clone(), s("m2")));
         }
         ("m2", "skin-convert") => {
-            a.extend([f, o.clone(), s("--version"), s(if opt == 1 { "WotLK" } else { "Cataclysm" })]);
+            a.extend([f, o.clone(), s("--version"), target_for(kind, variant, opt, "Cataclysm", "WotLK")]);
             outs_paths.push((out.clone(), s("skin")));
         }
         ("m2", "anim-convert") => {
-            a.extend([f, o.clone(), s("--version"), s(if opt == 1 { "WotLK" } else { "Legion" })]);
+            a.extend([f, o.clone(), s("--version"), target_for(kind, variant, opt, "Legion", "WotLK")]);
             outs_paths.push((out.clone(), s("anim")));
         }
         ("wmo", "convert") => {
-            a.extend([f, o.clone(), s("--version"), s(if opt == 1 { "WotLK" } else { "Cataclysm" })]);
+            a.extend([f, o.clone(), s("--version"), target_for(kind, variant, opt, "Cataclysm", "WotLK")]);
             outs_paths.push((out.clone(), s(kind)));
         }
         ("wmo", "list") => {
@@ -370,7 +417,7 @@ fn fmt_case(cli: &Path, dir: &Path, c: &Value, seed: u64) -> Vec<Value> {
             }
         }
         ("adt", "convert") => {
-            a.extend([f, o.clone(), s("--to"), s(if opt == 1 { "cataclysm" } else { "wotlk" })]);
+            a.extend([f, o.clone(), s("--to"), target_for(kind, variant, opt, "wotlk", "cataclysm")]);
             outs_paths.push((out.clone(), s("adt")));
         }
         ("wdt", "info") => {
@@ -392,7 +439,7 @@ fn fmt_case(cli: &Path, dir: &Path, c: &Value, seed: u64) -> Vec<Value> {
             }
         }
         ("wdt", "convert") => {
-            a.extend([f, o.clone(), s("--from-version"), s("WotLK"), s("--to-version"), s(if opt == 1 { "Classic" } else { "Cataclysm" })]);
+            a.extend([f, o.clone(), s("--from-version"), s("WotLK"), s("--to-version"), s(match opt { 0 => "Cataclysm", 1 => "Classic", 2 => "WotLK", _ => "wrath" })]);
             outs_paths.push((out.clone(), s("wdt")));
         }
         ("wdl", "validate") => {
@@ -402,7 +449,13 @@ fn fmt_case(cli: &Path, dir: &Path, c: &Value, seed: u64) -> Vec<Value> {
             }
         }
         ("wdl", "convert") => {
-            a.extend([f, o.clone(), s("--to"), s(if opt == 1 { "WotLK" } else { "Legion" })]);
+            if opt == 2 {
+                // from == to, both given
+                a.extend([f, o.clone(), s("--from"), s(source_version(kind, variant)), s("--to"), s(source_version(kind, variant))]);
+            } else {
+                // opt 3: auto-detected source, target = an alias of it
+                a.extend([f, o.clone(), s("--to"), target_for(kind, variant, opt, "Legion", "WotLK")]);
+            }
             outs_paths.push((out.clone(), s("wdl")));
         }
         _ => tool_error(&format!("no argv rule for {fam} {cmd}")),
@@ -438,6 +491,13 @@ fn fmt_case(cli: &Path, dir: &Path, c: &Value, seed: u64) -> Vec<Value> {
             };
             view.sort();
         }
+        // (only for undamaged input: a header the library tolerates need not describe the decoded image)
+        ("blp", "convert") if r.exit == 0 && sel_level >= 0 && input == "valid" => {
+            let b = outs_paths.first().and_then(|(pth, _)| std::fs::read(pth).ok()).unwrap_or_default();
+            view = if b.len() > 24 { vec![format!("dims:{}x{}", u32::from_be_bytes([b[16], b[17], b[18], b[19]]), u32::from_be_bytes([b[20], b[21], b[22], b[23]]))] } else { vec![s("dims:none")] };
+            let want = format!("dim:{sel_level}:");
+            libview = libview.iter().filter_map(|l| l.strip_prefix(&want).map(|d| format!("dims:{d}"))).collect();
+        }
         ("dbc", "export") if r.exit == 0 => {
             let text = outs_paths.first().and_then(|(pth, _)| std::fs::read_to_string(pth).ok()).unwrap_or_default();
             let rows = if opt == 1 {
@@ -457,7 +517,7 @@ fn fmt_case(cli: &Path, dir: &Path, c: &Value, seed: u64) -> Vec<Value> {
         libview.clear();
     }
     // the same command into a fresh location: exit 0 must mean the same file whatever was there before
-    let mut rt = Rt { pre: pre.clone(), ..Rt::default() };
+    let mut rt = Rt { pre: pre.clone(), sel: sel_class.clone(), ..Rt::default() };
     if pre != "empty" && need && r.exit == 0 {
         let (outp, ok) = (&outs_paths[0].0, &outs_paths[0].1);
         let fresh = dir.join(format!("fresh-{}", outp.file_name().unwrap().to_string_lossy()));
@@ -482,7 +542,7 @@ fn fmt_case(cli: &Path, dir: &Path, c: &Value, seed: u64) -> Vec<Value> {
     }
     // conversions of valid input: convert the result back to the source version and compare the parsed objects' tokens
     let convert = matches!(cmd, "convert" | "skin-convert" | "anim-convert") && kind != "blp";
-    if convert && input == "valid" && pre == "empty" && r.exit == 0 && outs == [s("ok")] {
+    if convert && opt <= 1 && input == "valid" && pre == "empty" && r.exit == 0 && outs == [s("ok")] {
         let target = a.last().cloned().unwrap_or_default();
         let src = source_version(kind, variant);
         let back = dir.join(format!("back.{ext}"));
@@ -690,8 +750,12 @@ fn mpq1_case(cli: &Path, dir: &Path, c: &Value, seed: u64) -> Vec<Value> {
         "pre":c.get("pre").and_then(|x| x.as_str()).unwrap_or("empty")});
     let arch = dir.join("a.mpq");
     // name classes: lower, UPPER, MiXed, nested directories, with spaces, non-ASCII
-    let names = ["readme.txt", "UPPER\\DATA.BIN", "Interface\\Icons\\MiXed.blp", "data\\sub\\deep\\empty.dat", "my dir\\a file.txt", "donn\u{e9}es\\\u{e9}t\u{e9}.txt", "zz.txt"];
-    let nfiles = 6 + (variant as usize % 2);
+    let names = ["readme.txt", "UPPER\\DATA.BIN", "Interface\\Icons\\MiXed.blp", "data\\sub\\deep\\empty.dat", "my dir\\a file.txt", "donn\u{e9}es\\\u{e9}t\u{e9}.txt", "zz.txt",
+        // near-misses of the filter shapes: extension letters without the dot, longer extension, prefix inside the name, ...
+        "changelog_txt", "notes.text", "mydata\\x.bin", "dat", "zz.txt2", "azz.txt"];
+    let nfiles = names.len();
+    // --filter patterns by index: every shape of the filter contract (Cli.tla GlobMatch)
+    const PATTERNS: [&str; 8] = ["", "*", "*.txt", "data*", "*sub*", "zz.txt", "zz?txt", "*.TXT"];
     let pre = c.get("pre").and_then(|x| x.as_str()).unwrap_or("empty").to_string();
     let mut b = ArchiveBuilder::new().version(if variant % 2 == 0 { FormatVersion::V1 } else { FormatVersion::V2 });
     // file classes: encrypted, fix-key encrypted, multi-sector (compressible), special files ((listfile) + (attributes))
@@ -738,6 +802,7 @@ fn mpq1_case(cli: &Path, dir: &Path, c: &Value, seed: u64) -> Vec<Value> {
     let mut outs = Vec::new();
     let mut need = false;
     let (mut vw, mut lv) = (Vec::new(), Vec::new());
+    let mut rtx = Rt::default();
     let preserve = opt == 1;
     // pre-state of the producers' output locations
     if pre != "empty" && input == "valid" {
@@ -765,14 +830,14 @@ fn mpq1_case(cli: &Path, dir: &Path, c: &Value, seed: u64) -> Vec<Value> {
             if opt & 1 == 1 {
                 a.push(s("--long"));
             }
-            if opt & 2 == 2 {
-                a.extend([s("--filter"), s("*.txt")]);
+            if opt >> 1 > 0 {
+                a.extend([s("--filter"), s(PATTERNS[(opt >> 1) as usize % 8])]);
             }
         }
         "tree" => {
             a.extend([af, s("--no-color")]);
-            if opt == 1 {
-                a.push(s("--compact"));
+            if opt > 0 {
+                a.extend([s("--filter"), s(PATTERNS[opt as usize % 8])]);
             }
         }
         "debug" => {
@@ -834,8 +899,25 @@ fn mpq1_case(cli: &Path, dir: &Path, c: &Value, seed: u64) -> Vec<Value> {
         "list" => {
             vw = if opt & 1 == 1 { view_of_long_list(&r.stdout) } else { view_of_list(&r.stdout) };
             if let Ok((n, _, _, _)) = &view {
-                lv = n.iter().filter(|x| opt & 2 == 0 || x.to_lowercase().ends_with(".txt")).cloned().collect();
+                lv = n.clone();
                 lv.sort();
+                // "No files found matching pattern" is the tool's rendering of an empty list
+                vw.retain(|l| !l.starts_with("No files found matching pattern"));
+                rtx.filt = s(PATTERNS[(opt >> 1) as usize % 8]);
+                rtx.libnames = lv.clone();
+            }
+        }
+        "tree" => {
+            // leaves of the tree (basenames), special files aside; the filter applies to full names
+            vw = r.stdout.lines().filter_map(|l| l.split("\u{1f4c4} ").nth(1)).map(|x| x.rsplit_once(" (").map(|(a, _)| a).unwrap_or(x).trim().to_string())
+                .filter(|x| !x.starts_with('(')).collect();
+            vw.sort();
+            if let Ok((n, _, _, _)) = &view {
+                let mut full: Vec<String> = n.iter().filter(|x| !x.starts_with('(')).cloned().collect();
+                full.sort();
+                lv = full.iter().map(|x| x.rsplit(['\\', '/']).next().unwrap_or(x).to_string()).collect();
+                rtx.filt = s(if opt == 0 { "*" } else { PATTERNS[opt as usize % 8] });
+                rtx.libnames = full;
             }
         }
         "info" => {
@@ -882,7 +964,7 @@ fn mpq1_case(cli: &Path, dir: &Path, c: &Value, seed: u64) -> Vec<Value> {
         _ => {}
     }
     let (lib, libval) = if cmd == "create" { (s(if input == "valid" { "ok" } else { "n/a" }), s("n/a")) } else { (lib, libval) };
-    let rt = Rt { pre: pre.clone(), ..Rt::default() };
+    let rt = Rt { pre: pre.clone(), ..rtx };
     vec![reset, run_event_rt(&id, "mpq", cmd, "mpq", input, &lib, &libval, false, false, opt, &r, &want, &got, &outs, need, &vw, &lv, &rt)]
 }
 
@@ -1063,6 +1145,19 @@ fn worker(kind: &str, file: &str, tmp: &str) -> ! {
                     }
                 }
             }
+        }
+    }
+    if l == "ok" && kind == "blp" {
+        let tf = tmp.join(format!("view-{}.blp", std::process::id()));
+        if std::fs::write(&tf, &bytes).is_ok() {
+            if let Ok(b) = wow_blp::parser::load_blp(&tf) {
+                let n = b.image_count();
+                println!("VIEW levels:{n}");
+                for lv in 0..n {
+                    println!("VIEW dim:{lv}:{}x{}", (b.header.width >> lv).max(1), (b.header.height >> lv).max(1));
+                }
+            }
+            let _ = std::fs::remove_file(&tf);
         }
     }
     if l == "ok" && kind == "dbc" {
